@@ -28,6 +28,8 @@ class Spec(PropSpec):
         "that a suspended tokio task really does not run (and resumes when its oneshot fires) is runtime behaviour: it is not modelled, it is covered only by the correspondence check through per-source progress counters (trigger calls started / returned)",
         "the unbounded mpsc channel is modelled as a FIFO list, the oneshot release channel as a token naming the source",
         "a source that is blocked, has panicked or was dropped makes no trigger call (such script commands are skipped on both sides); a dropped source is not restarted",
+        "a trigger fired by a destructor while its task unwinds (or inside catch_unwind) is an ordinary TriggerNoop of a fresh source number: code that still runs although the task's main code has panicked",
+        "a corrupted std-shim read is the event TriggerNoop(FsCorruption) at the position of the read inside the host's tick program",
     ]
     partial_note = ("the logic of barriers.rs (registry, earliest match, FIFO reporting, release tokens) is proved for all "
                     "histories; that a suspended task does not execute is tokio behaviour, checked by correspondence only")
